@@ -422,6 +422,12 @@ def prop_c04bec2(k, bs, cs, es, ephs, what, stride, offset):
                 # header tag/length bytes are not authenticated: an opened block can be turned into an opaque one
                 return (f"KNOWN:HEADER-DOWNGRADE opened auth blocks {kf} are a proper sub-list of the original "
                         f"{blocks0} (session key and components unchanged)")
+            if sorted(kf) == sorted(blocks0):
+                # same root cause: the tag byte of a block nobody opened was turned into the tag of an opened kind; the
+                # dictionary of blocks keeps the position of the first block with that tag, so the opened blocks come back
+                # in another order
+                return (f"KNOWN:HEADER-REORDER opened auth blocks {kf} are the original ones {blocks0} in another order "
+                        f"(session key and components unchanged)")
             return f"decrypted auth blocks {kf} instead of {blocks0}"
         return None
 
